@@ -181,6 +181,7 @@ def _worker(args):
         from pyvc.interp import Config
         core.CVC5_FIRST = bool(getattr(task, "cvc5_first", False))
         core.ABSTRACT_STRINGS_FIRST = bool(getattr(task, "abstract_strings", False))
+        core.Z3_OUT_OF_PROCESS = bool(getattr(task, "z3_out_of_process", False))
         res = run_task(task.name, task.harness, task.cfg_factory or Config, repo=Repo(REPO),
                        timeout_ms=task.timeout_ms, max_paths=task.max_paths, prune=task.prune,
                        known_classes=known_classes_for(_KNOWN, task.name),
